@@ -79,12 +79,14 @@ fn field_attrs(f: &FieldSpec, concrete: bool, cat: &Catalogue, style: u8, type_p
         a.push("skip".into());
     }
     let via = ty_str(&f.ty, cat);
+    // `_o`: the same functions wrapped in `Some` (declared type `Option<Cv>`)
+    let o = if f.conv_opt_decl { "_o" } else { "" };
     match f.conv {
         Conv::None => {}
-        Conv::From { by_ref: false } => a.push(format!("from({via}) = from_inc")),
-        Conv::From { by_ref: true } => a.push(format!("from(&{via}) = from_ref")),
-        Conv::TryFrom { by_ref: false } => a.push(format!("try_from({via}) = try_even -> ConvErr")),
-        Conv::TryFrom { by_ref: true } => a.push(format!("try_from(&{via}) = try_ref -> ConvErr")),
+        Conv::From { by_ref: false } => a.push(format!("from({via}) = from_inc{o}")),
+        Conv::From { by_ref: true } => a.push(format!("from(&{via}) = from_ref{o}")),
+        Conv::TryFrom { by_ref: false } => a.push(format!("try_from({via}) = try_even{o} -> ConvErr")),
+        Conv::TryFrom { by_ref: true } => a.push(format!("try_from(&{via}) = try_ref{o} -> ConvErr")),
     }
     if f.map {
         a.push("map = map_bump".into());
@@ -114,7 +116,10 @@ fn field_attrs(f: &FieldSpec, concrete: bool, cat: &Catalogue, style: u8, type_p
 }
 
 fn decl_ty(f: &FieldSpec, cat: &Catalogue) -> String {
-    if f.conv != Conv::None {
+    if f.conv != Conv::None && f.conv_opt_decl {
+        assert!(!f.has_default() && !f.skip && !f.map, "Option<Cv> fields take no default / skip / map");
+        "Option<Cv>".to_string()
+    } else if f.conv != Conv::None {
         "Cv".to_string()
     } else {
         ty_str(&f.ty, cat)
